@@ -355,6 +355,9 @@ class ExtrasMixin:
                 return c["value"]
         return NONE
 
+    def spec_truthy(self, node, frame):
+        return VBool(E.simp(self.truthy(self.eval(node.args[0], frame))))
+
     def spec_is_bound(self, node, frame):
         name = node.args[0].value
         f = frame
